@@ -171,7 +171,7 @@ step = st.fixed_dictionaries(
     {
         "op": st.sampled_from(
             [
-                "new", "copy", "subset_all", "subset_sel", "binop", "append", "prepend", "insert",
+                "new", "copy", "subset_all", "subset_sel", "binop", "append", "prepend", "insert", "swap", "swap",
                 "expand", "replace", "drop", "array", "append", "insert", "drop", "subset_all",
                 "array_sum", "intersect",
             ]
@@ -196,7 +196,8 @@ class History(Facet):
     def strategy(self, tier):
         n = 14 if tier == "quick" else 30
         return st.fixed_dictionaries(
-            {"start": st.lists(st.sampled_from(list(LET6)), unique=True, max_size=4), "steps": st.lists(step, min_size=1, max_size=n)}
+            {"start": st.lists(st.sampled_from(list(LET6)), unique=True, max_size=4), "steps": st.lists(step, min_size=1, max_size=n),
+             "check_every_step": st.booleans(), "reinsert_at_dropped": st.booleans()}
         )
 
     def run(self, desc):
@@ -205,7 +206,7 @@ class History(Facet):
         arrays = []  # keep arrays alive
 
         def add(ds, model, dbl, origin):
-            pool.append([ds, list(model), dict(dbl), origin])
+            pool.append([ds, list(model), {l: dbl[l] for l in model}, origin])
 
         base_dbl = {l: mkdim(l) for l in LET6}
         add(fd.DimensionSet(dim_list=[base_dbl[l] for l in desc["start"]]), desc["start"], {l: base_dbl[l] for l in desc["start"]}, "new")
@@ -219,6 +220,8 @@ class History(Facet):
 
         n_inplace_on_returned = 0
         n_fail = 0
+        last_dropped = None
+        every_step = desc.get("check_every_step", True)
         classes = set()
         for s in desc["steps"]:
             op = s["op"]
@@ -277,8 +280,11 @@ class History(Facet):
             elif op in ("append", "prepend", "insert"):
                 letter = LET6[s["k"]]
                 clash = letter in model
-                new_dim = mkdim(letter, s["clash"]) if clash else base_dbl[letter]
+                # a free letter may be taken by ANOTHER dimension than before (same letter, other name and items)
+                new_dim = mkdim(letter, s["clash"]) if (clash or s["clash"]) else base_dbl[letter]
                 idx = s["j"] % (len(model) + 1)
+                if op == "insert" and desc.get("reinsert_at_dropped") and last_dropped is not None and letter == last_dropped[0]:
+                    idx = min(last_dropped[1], len(model))
                 if op == "append":
                     call = lambda: ds.append(new_dim, inplace=s["inplace"])
                     idx = len(model)
@@ -302,6 +308,27 @@ class History(Facet):
                             n_inplace_on_returned += 1
                     else:
                         add(res, newmodel, newdbl, "returned")
+            elif op == "swap":
+                # exchange a dimension for ANOTHER dimension with the same letter at the same position, in place
+                # (drop + insert/append/prepend: what one does because replace() refuses an equal letter)
+                if not model or origin == "array":
+                    continue
+                letter = model[s["k"] % len(model)]
+                pos = model.index(letter)
+                new_dim = mkdim(letter, 1 + s["clash"] % 2)
+                if new_dim.name == dbl[letter].name:
+                    new_dim = base_dbl[letter]
+                ds.drop(dbl[letter].name if s["byname"] else letter, inplace=True)
+                if pos == len(model) - 1 and s["j"] % 2:
+                    ds.append(new_dim, inplace=True)
+                elif pos == 0 and s["j"] % 2:
+                    ds.prepend(new_dim, inplace=True)
+                else:
+                    ds.insert(pos, new_dim, inplace=True)
+                newdbl = dict(dbl)
+                newdbl[letter] = new_dim
+                ent[2] = newdbl
+                s = dict(s, inplace=True)
             elif op == "expand":
                 new_letters = []
                 for x in s["sel"][:3]:
@@ -363,6 +390,8 @@ class History(Facet):
                     n_fail += 1
                 else:
                     res = call()
+                    if s["inplace"]:
+                        last_dropped = (letter, model.index(letter))
                     newmodel = [l for l in model if l != letter]
                     newdbl = {l: d for l, d in dbl.items() if l != letter}
                     if s["inplace"]:
@@ -382,9 +411,16 @@ class History(Facet):
                     arrays.append(arr)
                     add(arr.dims, model, dbl, "array")
             classes.add(key)
-            invariant(key, s["i"] % n_before if s["inplace"] else -1)
+            if every_step:
+                invariant(key, s["i"] % n_before if s["inplace"] else -1)
+            else:
+                # between the steps only what does not go through name/letter lookups is looked at
+                for n_, (ds_, model_, dbl_, _) in enumerate(pool):
+                    require(list(ds_.letters) == list(model_), "untouched-set-changed" if n_ != s["i"] % n_before else f"{key}-result-wrong", f"letters {ds_.letters} != model {tuple(model_)}")
             if len(pool) > 24:
                 break
+        n_before = len(pool) + 1
+        invariant("end-of-history", -1)
         # arrays still consistent with their own dims
         for arr in arrays:
             require(arr.values.shape == tuple(arr.dims.shape), "array-shape-diverged", f"{arr.values.shape} vs {arr.dims.shape}")
